@@ -115,7 +115,8 @@ func (t TypeURLMap) SetFromSchema(schema map[string]*ast.Definition, url string)
 		}
 
 		for _, f := range v.Fields {
-			if common.IsBuiltinName(f.Name) || isNodeField(f) {
+			// only the relay node field of a root type is planned by id instead of by location
+			if common.IsBuiltinName(f.Name) || (common.IsRootObjectName(k) && isNodeField(f)) {
 				continue
 			}
 
